@@ -822,6 +822,9 @@ func (r *Runner) c16repeat(op *OpSpec, st *Step, v *value, arg interface{}, cano
 	if op.ByValue && r.sharedFor(st) == nil {
 		r.c16churn(op, st, v)
 	}
+	if ts := r.st(st); r.sharedFor(st) == nil && len(ts.kept) < 6 && res.N <= 8192 {
+		ts.kept = append(ts.kept, &keptEnc{v: v, typ: op.Type, n: res.N, canon: canon, snap: model.Digest(model.CanonValue(v.ptr.Elem()))})
+	}
 	if so := r.sharedFor(st); so != nil {
 		if so.canon == "" {
 			so.canon = canon
@@ -861,3 +864,36 @@ func (r *Runner) c16churn(op *OpSpec, st *Step, v *value) {
 }
 
 var _ = verifsim.Active
+
+// keptEnc is a value a task encoded successfully and keeps, unmodified, for the rest of the run.
+type keptEnc struct {
+	v           *value
+	typ         string
+	n           int
+	canon, snap string
+}
+
+// c16later: "encoding the same unmodified value again yields the same bytes" - also after the task's other calls
+// (other values of the same definition, extreme ones, failed ones) have come and gone in between. Before each encode
+// of the task, one of the values it encoded earlier is encoded again.
+func (r *Runner) c16later(op *OpSpec, st *Step) {
+	ts := r.st(st)
+	if r.Spec.Prof != "C16" || len(ts.kept) == 0 {
+		return
+	}
+	k := ts.kept[int(op.VSeed>>9)%len(ts.kept)]
+	if model.Digest(model.CanonValue(k.v.ptr.Elem())) != k.snap {
+		return // modified since (reported where it happened): no longer "the same unmodified value"
+	}
+	ts.events["re-encode-after-other-calls"]++
+	ts.evals++
+	a := newArena(k.n+8, k.n+8)
+	n, err, pc, _ := callEnc(a.buf(), k.v.arg(false))
+	if pc != "" || err != nil || n != k.n {
+		r.violation("C16", "C16/not-repeatable/later", fmt.Sprintf("re-encoding the unmodified %s value after other calls of the task gave n=%d err=%v panic=%q (first call n=%d)", k.typ, n, err, pc, k.n), st)
+		return
+	}
+	if cb, _, ok := model.CanonBytes(a.buf()[:n]); !ok || model.Digest(cb) != k.canon {
+		r.violation("C16", "C16/not-repeatable/later", fmt.Sprintf("re-encoding the unmodified %s value after other calls of the task gave a different message", k.typ), st)
+	}
+}
